@@ -2,6 +2,7 @@ package main
 
 import (
 	"fmt"
+	"google.golang.org/protobuf/proto"
 	"strings"
 
 	rwp "github.com/SKAARHOJ/rawpanel-lib/ibeam_rawpanel"
@@ -161,6 +162,70 @@ func genC09(tier string, rng *Rng) {
 		sc.ID = mode + "-special-text"
 		scs = append(scs, sc)
 		hist[mode+"-special-text"]++
+	}
+	// messages with every combination of the four top-level fields present / empty (seeds C09-11: a
+	// submission that is not empty but converts to no ASCII line wrote a lone line feed; C09-12: a
+	// pre-encoded frame for "nothing but the flow message" forgot that Registers is a field too):
+	// alone in a list, several in a list, next to ordinary messages, and lists that are empty
+	for _, asc := range []bool{false, true} {
+		cs := goodConn(1)
+		if asc {
+			cs = goodAscConn("HWC#1=Down")
+		}
+		sc := &Scenario{Entry: "client", Conns: []ConnScript{cs}, SubStart: 100, Cancel: 1700}
+		var pool []*rwp.InboundMessage
+		for mask := 0; mask < 48; mask++ {
+			m := &rwp.InboundMessage{}
+			switch mask & 3 {
+			case 1:
+				m.FlowMessage = rwp.InboundMessage_FlowMsg(1 + mask%3)
+			case 2:
+				m.FlowMessage = rwp.InboundMessage_FlowMsg(1 + (mask/4)%3)
+			}
+			switch (mask >> 2) & 3 {
+			case 1:
+				m.Command = &rwp.Command{}
+			case 2:
+				m.Command = &rwp.Command{SendPanelInfo: true}
+			case 3:
+				m.Command = &rwp.Command{PanelBrightness: &rwp.Brightness{OLEDs: 3, LEDs: 4}}
+			}
+			switch (mask >> 4) % 3 {
+			case 1:
+				m.States = []*rwp.HWCState{{HWCIDs: []uint32{uint32(600 + mask)}}}
+			case 2:
+				m.States = []*rwp.HWCState{{HWCIDs: []uint32{uint32(600 + mask)}, HWCMode: &rwp.HWCMode{State: 4}}}
+			}
+			pool = append(pool, m)
+			// the same with registers (none of the ASCII forms carries them; a binary frame must)
+			r := proto.Clone(m).(*rwp.InboundMessage)
+			r.Registers = []*rwp.Register{{Reg: rwp.Register_RegisterE(mask % 3), Id: "A", Value: uint32(mask)}}
+			pool = append(pool, r)
+			if mask%8 == 0 {
+				e := proto.Clone(m).(*rwp.InboundMessage)
+				e.Registers = []*rwp.Register{}
+				e.States = []*rwp.HWCState{}
+				pool = append(pool, e)
+			}
+		}
+		var list []Submission
+		for i, m := range pool {
+			list = append(list, Submission{Msgs: []*rwp.InboundMessage{m}})
+			if i%5 == 0 {
+				list = append(list, Submission{})
+			}
+			if i%7 == 0 && i+2 < len(pool) {
+				list = append(list, Submission{Msgs: []*rwp.InboundMessage{pool[i+1], randInMsg(rng, uint32(800+i), false), pool[i+2], m}})
+			}
+		}
+		sc.Subs = [][]Submission{list}
+		mode := "bin"
+		if asc {
+			mode = "asc"
+		}
+		sc.ID = mode + "-field-presence"
+		scs = append(scs, sc)
+		hist[mode+"-field-presence"]++
 	}
 	// a slow consumer of msgsFromPanel: the panel sends an event, the application picks it up
 	// only after 3 s; submissions made meanwhile (and after) must all reach the panel
